@@ -76,7 +76,7 @@ def tmpdir():
 def gen_image(ch, galactic=False, small=False):
     """Draw the description of a synthetic image (all numbers from the decision stream)."""
     spec = {"galactic": bool(galactic)}
-    layout = ("scatter", "scatter", "grid", "blend", "empty", "tiny")[ch.weighted("layout", [4, 3, 2, 2, 1, 1])]
+    layout = ("scatter", "scatter", "grid", "blend", "empty", "tiny", "nested")[ch.weighted("layout", [4, 3, 2, 2, 1, 1, 2])]
     if small:
         layout = "scatter"
     spec["layout"] = layout
@@ -143,6 +143,23 @@ def gen_image(ch, galactic=False, small=False):
             srcs.append((x + sep * math.cos(ang), y + sep * math.sin(ang), amp * (1.0, 0.6)[ch.draw("ratio", 2)], b, b, 0.0))
             if ch.chance("triple", 1, 3):
                 srcs.append((x - sep * math.sin(ang), y + sep * math.cos(ang), amp * 0.8, b, b, 0.0))
+    elif layout == "nested":
+        # a diagonal chain of blended sources (one long diagonal island) with a compact neighbour in the empty corner of
+        # its bounding box: two separate islands, one inside the other's box
+        k = 1 + ch.draw("nnested", 2)
+        for _ in range(k):
+            x0 = 14 + ch.draw("sx", max(1, rows - 60))
+            y0 = 14 + ch.draw("sy", max(1, cols - 60))
+            flip = ch.draw("nest_flip", 2)
+            nlink = 4 + ch.draw("nest_len", 3)
+            step = b * 0.9
+            for i in range(nlink):
+                yy_ = y0 + i * step if not flip else y0 + (nlink - 1 - i) * step
+                srcs.append((x0 + i * step, yy_, 25.0, b, b, 0.0))
+            span = (nlink - 1) * step
+            cx = x0 + (0.12 if ch.draw("nest_corner", 2) else 0.88) * span
+            cy = (y0 + 0.88 * span) if ((cx < x0 + span / 2) != bool(flip)) else (y0 + 0.12 * span)
+            srcs.append((cx, cy, (60.0, 12.0)[ch.draw("nest_amp", 2)], b, b, 0.0))
     spec["sources"] = srcs
     spec["nan_patch"] = None
     if ch.chance("nan_patch", 1, 6):
@@ -353,21 +370,49 @@ def row_invariants(sources):
     return []
 
 
+class _RefIsland:
+    def __init__(self, bounding_box, mask):
+        self.bounding_box = bounding_box
+        self.mask = mask          # True = pixel of the box that does NOT belong to the island
+
+
+def reference_islands(img, rms, seed_clip, flood_clip):
+    """Independent detection of the pixel groups (not the code under test): 8-connected groups of finite pixels with
+    |signal/noise| >= flood_clip that contain a pixel with |signal/noise| > seed_clip; bounding box with exclusive upper
+    bounds, mask over the box."""
+    from scipy import ndimage
+    snr = np.abs(np.asarray(img, dtype=float) / np.asarray(rms, dtype=float))
+    ok = np.isfinite(snr) & (snr >= flood_clip)
+    lab, n = ndimage.label(ok, structure=np.ones((3, 3)))
+    out = []
+    for i, sl in enumerate(ndimage.find_objects(lab)):
+        mine = lab[sl] == i + 1
+        if not np.any(snr[sl][mine] > seed_clip):
+            continue
+        out.append(_RefIsland(((sl[0].start, sl[0].stop), (sl[1].start, sl[1].stop)), ~mine))
+    return out
+
+
 def island_vs_pixels(finder, sources, innerclip, outerclip):
-    """Island rows against the detected pixel groups (find_islands on the finder's own maps)."""
+    """Island rows against the detected pixel groups, which are recomputed here independently of the finder (on the
+    finder's own background-subtracted image and noise map)."""
     models = _state["models"]
     sf = _state["sf"]
     isles = [s for s in sources if isinstance(s, models.IslandSource)]
     if not isles:
         return []
     gd = finder.global_data
-    ref = sf.find_islands(im=gd.img, bkg=np.zeros_like(gd.img), rms=gd.rmsimg, seed_clip=innerclip,
-                          flood_clip=min(outerclip, innerclip), region=gd.region, wcs=gd.psfhelper)
+    ref = reference_islands(gd.img, gd.rmsimg, innerclip, min(outerclip, innerclip))
+    by_box = {}
+    for r in ref:
+        by_box.setdefault(tuple(r.bounding_box[0]) + tuple(r.bounding_box[1]), []).append(r)
     for isl in isles:
-        idx = int(isl.island) - 1
-        if not (0 <= idx < len(ref)):
-            return [("island-unknown", "island row %s does not correspond to a detected pixel group (%d groups)" % (isl.island, len(ref)))]
-        r = ref[idx]
+        cands = by_box.get(tuple(int(v) for v in isl.extent))
+        if not cands:
+            return [("island-extent", "island %s: extent %s is not the bounding box of any detected pixel group (%d groups)"
+                     % (isl.island, list(isl.extent), len(ref)))]
+        # several groups can share a bounding box only in contrived cases; take the one with the closest pixel count
+        r = min(cands, key=lambda c: abs(int(np.count_nonzero(~c.mask)) - int(isl.pixels)))
         (xmin, xmax), (ymin, ymax) = r.bounding_box
         if list(isl.extent) != [xmin, xmax, ymin, ymax]:
             return [("island-extent", "island %s: extent %s but the pixel group spans %s" % (isl.island, list(isl.extent), [xmin, xmax, ymin, ymax]))]
